@@ -75,13 +75,31 @@ def _is_test_attribute_text(text: str) -> bool:
 
     String literals (e.g. feature = "latest") are ignored and #[cfg(not(test))] is not a test marker.
     """
-    without_strings = re.sub(r'"[^"]*"', '""', text)
-    if re.search(r"\bnot\s*\(\s*test\s*\)", without_strings):
-        return False
+    without_strings = _without_negated_groups(re.sub(r'"[^"]*"', '""', text))
     # #[cfg_attr(test, ...)] adds an attribute under test; the item itself is production code
     if re.match(r"\s*#!?\s*\[\s*cfg_attr\b", without_strings):
         return False
     return "test" in without_strings
+
+
+def _without_negated_groups(text: str) -> str:
+    """Remove every not(...) group (balanced parentheses): what it names is NOT the test build.
+
+    #[cfg(not(test))], #[cfg(all(not(test), unix))] and #[cfg(not(any(test, feature = "x")))]
+    all describe production code.
+    """
+    out, i = "", 0
+    while i < len(text):
+        match = re.compile(r"\bnot\s*\(").match(text, i)
+        if match is None:
+            out, i = out + text[i], i + 1
+            continue
+        depth, j = 1, match.end()
+        while j < len(text) and depth:
+            depth += {"(": 1, ")": -1}.get(text[j], 0)
+            j += 1
+        i = j
+    return out
 
 
 def has_cfg_test_attribute(mod_node: Node) -> bool:
